@@ -355,7 +355,16 @@ def miri_leg(run, seeds):
         inits = [l for l in txt.split('\n') if l.startswith('init ')]
         run.tags['miri_init_events'] += len(inits)
     run.tags['miri_runs_clean'] += ok
-    run.extra_cov['miri'] = {'seeds': list(seeds), 'clean': ok, 'wall_s': round(time.time() - t0), 'digests': ref}
+    # the same workload natively: the interpreter and the machine must agree on every document
+    native = None
+    try:
+        r = subprocess.run([build_driver(), 'miri'], stdout=subprocess.PIPE, stderr=subprocess.DEVNULL, timeout=300)
+        native = [l for l in r.stdout.decode().split('\n') if l.startswith(('race', 'seq'))]
+        if ref is not None and native != ref:
+            run.inconclusive['the digests under Miri differ from the native run (Miri may perturb float intrinsics): %r vs %r' % (ref, native)] += 1
+    except Exception as e:
+        run.inconclusive['native run of the miri workload failed: %r' % (e,)] += 1
+    run.extra_cov['miri'] = {'seeds': list(seeds), 'clean': ok, 'wall_s': round(time.time() - t0), 'digests': ref, 'native_digests_equal': native == ref}
     return ref
 
 
